@@ -6,6 +6,7 @@ import Driver.Proc
 import Driver.LayerC
 import Jamm.Model.CommitInv
 import Jamm.Model.CommitTight
+import Jamm.Model.ImplCheck
 import Std.Data.HashMap
 open Driver Jamm
 
@@ -343,8 +344,15 @@ def main (args : List String) : IO UInt32 := do
         | .error _ => IO.println s!"{id} => panic:nometa"
         | .ok mt =>
           let rep := checkBytes Gen.layout Gen.hashOrder ba pagesize false
-          if rep.ok then IO.println s!"{id} => ok;dump={rep.dump};check=ok ## tx={mt.txId} slot={mt.metaPage}"
-          else IO.println s!"{id} => bad:{rep.msg} ## tx={mt.txId} slot={mt.metaPage}"
+          -- the model of the database's own check (`TxInner::check`), for comparison with the real verdict
+          let pg : PageStore := fun pid =>
+            if pid < 2 || pid ≥ mt.numPages then none else
+            match decodePage Gen.layout s pagesize pid with
+            | .ok p => some p
+            | .error _ => none
+          let ic := match implCheck mt pg with | .ok _ => "ok" | .error _ => "err"
+          if rep.ok then IO.println s!"{id} => ok;dump={rep.dump};check=ok ## tx={mt.txId} slot={mt.metaPage} implcheck={ic}"
+          else IO.println s!"{id} => bad:{rep.msg} ## tx={mt.txId} slot={mt.metaPage} implcheck={ic}"
       | _ => pure ()
     return 0
   | _ =>
